@@ -87,10 +87,11 @@ pub fn ladder(thorough: bool, max: usize) -> Vec<usize> {
     v
 }
 
-/// The ladder for lengths that the Lean model accumulates byte by byte (field names and values: its scanner
-/// appends to a list, which is quadratic in the length): up to 16 KiB (quick) / 64 KiB (thorough).
+/// The ladder for field names and values. (The Lean scanners append to a list per byte, which would be quadratic
+/// in the length; the compiled driver runs their linear twins `parseRespFast` / `parseReqFast`, proved equal and
+/// installed with `@[csimp]`, so these go as far as the others.)
 pub fn ladder_q(thorough: bool) -> Vec<usize> {
-    ladder(thorough, if thorough { 65536 } else { 16384 })
+    ladder(thorough, 131072)
 }
 
 /// the header part of a `new` line
